@@ -75,7 +75,7 @@ def run(ck):
         ck.violation('tie_broken', 'resource harness does not build', dict(), False); return
     sp = stream_file(ck)
     cases = []
-    evar = [0, 1, 2, 4, 8, 16] if ck.tier == 'quick' else [0, 1, 2, 3, 4, 5, 8, 9, 16, 32, 36]
+    evar = [0, 1, 2, 4, 8, 16, 64, 128] if ck.tier == 'quick' else [0, 1, 2, 3, 4, 5, 8, 9, 16, 32, 36, 64, 65, 128, 144]
     for v in evar:
         for p in (0, 1, 2, 3):
             cases.append(('E', v, p, 0, 0, 1))
@@ -116,7 +116,7 @@ def run(ck):
             ck.violation('growth:%s' % tag, '%s: live heap grows by %d bytes per session' % (what, growth), replay, True)
     ck.sample(dict(case=cases[5]))
     ck.cov['traces_validated_against_impl'] = len(cases)
-    ck.cov['rule'] = 'encoder variants (recon, 10 bit, 4 logical processors, screen content, preset 4, stat report) x teardown after handle creation / rejected / accepted configuration / init; full sessions twice (growth); mid-stream with 5..60 pictures sent and 0..6 packets retrieved; decoder with 1 and 4 threads, 8/16-bit pipeline, 0..4 frames, 3 sessions'
+    ck.cov['rule'] = 'encoder variants (recon, 10 bit, 1 / 2 / 3 / 4 logical processors, screen content, preset 4, stat report) x teardown after handle creation / rejected / accepted configuration / init; full sessions twice (growth); mid-stream with 5..60 pictures sent and 0..6 packets retrieved; decoder with 1 and 4 threads, 8/16-bit pipeline, 0..4 frames, 3 sessions'
     br = ck.broken_obligations()
     if br and not ck.violations:
         ck.violation('obligation_broken', 'C15 proof/tie no longer checks: ' + '; '.join('%s (%s)' % (n_, d_[:200]) for n_, d_ in br[:3]), dict(broken=[dict(name=n_, detail=d_) for n_, d_ in br]), False)
